@@ -28,7 +28,7 @@ RULE = ("audit histories: simulated election x 2-5 rounds of non-decreasing size
         "number than a card already selected; distinct = hash of (spec, size vectors)")
 REQUIRED = ["histories", "rounds:redraw", "rounds:continue", "append_checked", "monotone_checked", "continue_equals_redraw_checked",
             "round_adds_card_before_already_selected", "round_without_change", "contest_full_hand_count", "style_on", "style_off",
-            "p_decreased", "proved_carried_over", "fine_grained_histories"]
+            "p_decreased", "proved_carried_over", "fine_grained_histories", "histories_after_a_dry_run"]
 ASSUMPTIONS = ["polling is only generated without style (the library gives it the whole sample); without style the sample "
                "is the first n cards in sample-number order, so the append clause is well-defined there too"]
 N_CASES = {"quick": 8000, "thorough": 64000}
@@ -95,12 +95,26 @@ def run_shard(spec, rec):
                 con.update(test="alpha_mart", estim="shrink_trunc", bet=None, test_kwargs={"d": 10, "f": rng.choice((0.25, 1.0)), "c": 0.125})
             es["_fine"] = rng.randint(6, 12)
         es["_rseed"] = rng.randrange(10 ** 9)
+        es["_dry_run"] = rng.random() < 0.3
         run_case(es, rec)
 
 
 def run_variant(es, rounds, variant, rec):
     sim = E.Sim(copy.deepcopy(es)).setup()
     sim.assign_sample_nums()
+    if es.get("_dry_run"):
+        # a dry run on the same list with other sample numbers (reversed), before the real numbers are assigned
+        real = [c.sample_num for c in sim.cvr_list]
+        for c, v in zip(sim.cvr_list, reversed(real)):
+            c.sample_num = v
+        sim.set_sizes(rounds[0])
+        rec.guard("c10.call:consistent_sampling:dry_run", sim.draw, None)
+        for c, v in zip(sim.cvr_list, real):
+            c.sample_num = v
+            c.sampled = False
+        for con in sim.contests.values():
+            con.sample_threshold = None
+        rec.count("histories_after_a_dry_run")
     A = sim.L["Assertion"]
     hist = []
     prev = None
